@@ -246,6 +246,7 @@ func (g *G) joinWords(ws []string) []Tok {
 func (g *G) Select(small, tail bool) ([]Tok, *ast.SelectStatement) {
 	defer g.deeper()()
 	s := &ast.SelectStatement{}
+	var selAliases []ident // aliases given to select items of this SELECT
 	t := g.kw("SELECT")
 	switch g.intn(10, "distinct") {
 	case 7:
@@ -292,6 +293,7 @@ func (g *G) Select(small, tail bool) ([]Tok, *ast.SelectStatement) {
 			if g.chance(35, "colalias") {
 				a := g.pick(aliasPool, "calias")
 				g.Names.Aliases[a.name] = true
+				selAliases = append(selAliases, a)
 				_, plain := e.N.(*ast.Identifier)
 				if plain || g.chance(60, "colas") {
 					it = cat(it, g.kw("AS"), sym(a.src))
@@ -443,6 +445,13 @@ func (g *G) Select(small, tail bool) ([]Tok, *ast.SelectStatement) {
 		if g.chance(30, "orderby") {
 			g.use("order_by")
 			ots, ons := g.orderItems(1 + g.intn(3, "norder"))
+			if g.F.OrderByAlias && len(selAliases) > 0 && g.chance(30, "orderbyalias") {
+				// ORDER BY <select-list alias>: a reference to an output column, not to a table column
+				g.use("order_by_alias")
+				a := selAliases[g.intn(len(selAliases), "whichalias")]
+				ots = append(ots, sym(a.src))
+				ons = append(ons, ast.OrderByExpression{Expression: &ast.Identifier{Name: a.name}, Ascending: true})
+			}
 			t = cat(t, g.kw("ORDER", "BY"), commaJoin(ots))
 			s.OrderBy = ons
 		}
